@@ -154,7 +154,9 @@ func (r *headerRange[H]) rangeAmount(end uint64) uint64 {
 	}
 
 	amnt := uint64(len(r.headers))
-	if r.start+amnt >= end {
+	// 'end' lies inside the range only if it is not above the range's last height (start+amnt-1):
+	// for end == start+amnt the whole range is asked for, not one header more than it holds
+	if r.start+amnt > end {
 		amnt = end - r.start + 1 // + 1 to include 'end' as well
 	}
 
